@@ -1,5 +1,6 @@
 //! Harness binary for the properties anchored in the `flussab` core crate
 //! (reader, writer, text scanners, combinators).
+mod c10;
 mod c13;
 mod c15;
 mod c16;
@@ -45,6 +46,10 @@ fn main() {
         "C09" => {
             reader_mc::run(reader_mc::Mode::C09, cli.tier, &mut report);
             reader_mc::RULE_C02.into()
+        }
+        "C10" => {
+            c10::run(cli.tier, &mut report);
+            c10::RULE.into()
         }
         "C11" => {
             writer_mc::run(writer_mc::Mode::C11, cli.tier, &mut report);
